@@ -27,7 +27,7 @@ def run_flow(pid, tier, replay, prefix):
     out = Outcome(pid, tier)
     wd = os.path.join(WORK, pid)
     rvh = build_harness()
-    cases, tres = flow_cases(tier, pid)
+    cases, tres = ([], []) if replay else flow_cases(tier, pid)
     for r in tres:
         out.add_tlc(r)
     metas = [{k: c[k] for k in ("syms", "pos", "shape", "n")} for c in cases]
@@ -72,7 +72,6 @@ def run_flow(pid, tier, replay, prefix):
         "programs_rejected_by_cfg": len(evs) - len(ok),
         "shapes": {s: sum(1 for m in metas if m["shape"] == s) for s in ("forced", "free", "dup", "data")},
     }
-    out.sample({"text": texts[0], "shape": metas[0]["shape"]})
-    out.sample({"text": texts[len(cases) // 2], "shape": metas[len(cases) // 2]["shape"]})
-    out.sample({"text": texts[len(cases) - 1], "shape": metas[len(cases) - 1]["shape"]})
+    for k in sorted({0, len(texts) // 2, len(texts) - 1}):
+        out.sample({"text": texts[k], "shape": metas[k]["shape"]})
     return out, stats, len(cases)
